@@ -572,6 +572,9 @@ static void put_view(struct jpeg_decompress_struct *d)
       } else printf("%s-", k ? "," : "");
     }
   }
+  { unsigned char b[3 * NUM_ARITH_TBLS];
+    for (k = 0; k < NUM_ARITH_TBLS; k++) { b[k] = d->arith_dc_L[k]; b[NUM_ARITH_TBLS + k] = d->arith_dc_U[k]; b[2 * NUM_ARITH_TBLS + k] = d->arith_ac_K[k]; }
+    printf(" ar=%016llx", (unsigned long long)fnv(b, sizeof(b))); }
   for (m = d->marker_list; m; m = m->next) nm++;
   printf(" nm=%d", nm);
 }
@@ -603,7 +606,11 @@ static void do_rdall(char **f, int nf)
     else if (rc == JPEG_REACHED_EOI) break;
     else if (rc == JPEG_SUSPENDED || ++guard > 10000000) { printf(" | stuck"); break; }
   }
-  printf(" | end ri=%u dens=%d.%d.%d jfif=%d adobe=%d tr=%d |", d.restart_interval, d.density_unit, d.X_density, d.Y_density,
+  printf(" | end sof=%d%d%d.%d.%u.%u.", d.progressive_mode ? 1 : 0, d.master->lossless ? 1 : 0, d.arith_code ? 1 : 0, d.data_precision,
+         d.image_width, d.image_height);
+  { int i; for (i = 0; i < d.num_components; i++) printf("%s%d:%d:%d:%d", i ? "," : "", d.comp_info[i].component_id, d.comp_info[i].h_samp_factor,
+                                                           d.comp_info[i].v_samp_factor, d.comp_info[i].quant_tbl_no); }
+  printf(" ri=%u dens=%d.%d.%d jfif=%d adobe=%d tr=%d |", d.restart_interval, d.density_unit, d.X_density, d.Y_density,
          d.saw_JFIF_marker ? 1 : 0, d.saw_Adobe_marker ? 1 : 0, d.saw_Adobe_marker ? d.Adobe_transform : 0);
   for (m = d.marker_list; m; m = m->next)
     printf(" m %d %u %u %016llx ;", m->marker, m->original_length, m->data_length, (unsigned long long)fnv(m->data, m->data_length));
@@ -685,9 +692,21 @@ static void do_xfm(char **f, int nf)
   h = tj3Init(TJINIT_TRANSFORM);
   memset(t, 0, sizeof(t)); memset(dst, 0, sizeof(dst)); memset(dn, 0, sizeof(dn));
   for (i = 0; i < nt; i++) { t[i].op = TJXOP_NONE; t[i].options = f[2][i] == '1' ? TJXOPT_COPYNONE : 0; }
-  if ((opt >= 0 && tj3Set(h, TJPARAM_SAVEMARKERS, opt) < 0) || (diccn && tj3SetICCProfile(h, dicc, diccn) < 0) ||
-      tj3Transform(h, src, n, nt, dst, dn, t) < 0) puts("err transform");
+  if ((opt >= 0 && tj3Set(h, TJPARAM_SAVEMARKERS, opt) < 0) || (diccn && tj3SetICCProfile(h, dicc, diccn) < 0)) { puts("err set"); goto done; }
+  if (nf >= 6 && f[5][0] == 'b') {
+    /* caller-allocated buffers of exactly tj3TransformBufSize() bytes, TJPARAM_NOREALLOC */
+    size_t bs[8], base;
+    if (tj3DecompressHeader(h, src, n) < 0 && tj3GetErrorCode(h) == TJERR_FATAL) { puts("err header"); goto done; }
+    base = tj3JPEGBufSize(tj3Get(h, TJPARAM_JPEGWIDTH), tj3Get(h, TJPARAM_JPEGHEIGHT), tj3Get(h, TJPARAM_SUBSAMP));
+    tj3Set(h, TJPARAM_NOREALLOC, 1);
+    for (i = 0; i < nt; i++) { bs[i] = tj3TransformBufSize(h, &t[i]); dst[i] = (unsigned char *)tj3Alloc(bs[i]); dn[i] = bs[i]; }
+    if (tj3Transform(h, src, n, nt, dst, dn, t) < 0) { char e[200]; char *q; strncpy(e, tj3GetErrorStr(h), 199); e[199] = 0; for (q = e; *q; q++) if (*q == ' ') *q = '_'; printf("err transform-noreal %s", e); for (i = 0; i < nt; i++) printf(" bs=%zu:%zu", bs[i], base); putchar('\n'); goto done; }
+    fputs("ok", stdout); for (i = 0; i < nt; i++) { putchar(' '); puthex(dst[i], dn[i]); }
+    for (i = 0; i < nt; i++) printf(" bs=%zu:%zu", bs[i], base);
+    putchar('\n');
+  } else if (tj3Transform(h, src, n, nt, dst, dn, t) < 0) puts("err transform");
   else { fputs("ok", stdout); for (i = 0; i < nt; i++) { putchar(' '); puthex(dst[i], dn[i]); } putchar('\n'); }
+done:
   for (i = 0; i < nt; i++) tj3Free(dst[i]);
   tj3Destroy(h); free(src); free(dicc);
 }
